@@ -80,7 +80,77 @@ def chart_text(res=192, song=None, sync=None, events=None, tracks=None, order=No
     lines: list[str] = []
     for t in tags:
         lines += section(t, secs[t])
-    return nl.join(lines) + (nl if trailing_nl else "")
+    text = nl.join(lines) + (nl if trailing_nl else "")
+    if nl == "\n" and not extra_sections:
+        _SECTIONS_OF[text] = [(t, list(secs[t])) for t in tags]
+        if len(_SECTIONS_OF) > 4096:
+            for k in list(_SECTIONS_OF)[:2048]:
+                del _SECTIONS_OF[k]
+    return text
+
+
+# ---------------------------------------------------------------------------------------------
+# The section-level public entry points (Metadata / SyncTrack / GlobalEventsTrack / InstrumentTrack .from_chart_lines) are
+# typed Iterable[str]: what a section means must not depend on whether its body arrives as a list, a one-shot iterator, a
+# generator ...  `with entry_point("iterator"):` makes outcome() build the chart of a text assembled by chart_text() from
+# its sections through those entry points (bodies indented as in the file) instead of Chart.from_file.
+_SECTIONS_OF: dict = {}
+_ENTRY = {"how": None}
+ITERABLE_KINDS = ["list", "tuple", "iterator", "generator", "islice", "map", "file-object", "deque"]
+
+
+def as_iterable(lines, how):
+    import collections
+    import io
+    import itertools
+    if how == "tuple":
+        return tuple(lines)
+    if how == "iterator":
+        return iter(list(lines))
+    if how == "generator":
+        return (ln for ln in lines)
+    if how == "islice":
+        return itertools.islice(["x"] + list(lines) + ["y"], 1, 1 + len(lines))
+    if how == "map":
+        return map(str, lines)
+    if how == "file-object":
+        return (ln.rstrip("\n") for ln in io.StringIO("".join(ln + "\n" for ln in lines)))
+    if how == "deque":
+        return collections.deque(lines)
+    return list(lines)
+
+
+class entry_point:
+    def __init__(self, how):
+        self.how = how
+
+    def __enter__(self):
+        self.old = _ENTRY["how"]
+        _ENTRY["how"] = self.how
+
+    def __exit__(self, *a):
+        _ENTRY["how"] = self.old
+
+
+def parse_sections(sections, how):
+    """[(tag, body lines)] -> Chart, every section through its own public entry point."""
+    load_impl()
+    from chartparse.chart import Chart
+    from chartparse.globalevents import GlobalEventsTrack
+    from chartparse.instrument import Difficulty, Instrument, InstrumentTrack
+    from chartparse.metadata import Metadata
+    from chartparse.sync import SyncTrack
+    body = {t: ["  " + ln for ln in b] for t, b in sections}
+    metadata = Metadata.from_chart_lines(as_iterable(body["Song"], how))
+    sync_track = SyncTrack.from_chart_lines(metadata.resolution, as_iterable(body["SyncTrack"], how))
+    global_events_track = GlobalEventsTrack.from_chart_lines(as_iterable(body["Events"], how), sync_track.bpm_events)
+    tracks: dict = {}
+    for t, _ in sections:
+        if t in HEADER_KEY:
+            i, d = HEADER_KEY[t]
+            tr = InstrumentTrack.from_chart_lines(Instrument[i], Difficulty[d], as_iterable(body[t], how), sync_track.bpm_events)
+            tracks.setdefault(Instrument[i], {})[Difficulty[d]] = tr
+    return keep_alive(Chart(metadata, global_events_track, sync_track, tracks))
 
 
 # Charts parsed by the harness are kept alive for a while (a ring of the most recent ones): state shared between
@@ -110,12 +180,38 @@ class LogCapture(logging.Handler):
         self.records.append((record.name, record.levelno, msg))
 
 
+_PARSES = [0]
+
+
+def _reused_path(text):
+    """Every few parses the text goes to disk and is read back with Chart.from_filepath - at one of TWO paths that are
+    overwritten again and again: which chart a path yields is a matter of what the file contains NOW."""
+    import os
+    d = os.environ.get("VERIF_TMP")
+    _PARSES[0] += 1
+    if not d or _PARSES[0] % 5 or "\r" in text or text[:1] == "\ufeff":
+        return None
+    try:
+        data = text.encode("utf-8")
+    except UnicodeEncodeError:
+        return None
+    p = os.path.join(d, f"reused-{os.getpid()}-{(_PARSES[0] // 5) % 2}.chart")
+    with open(p, "wb") as f:
+        f.write(data)
+    return p
+
+
 def parse(text: str, want=None, capture_logs=False):
-    """Parse with the real Chart.from_file.  Returns (chart, logs) if capture_logs else chart."""
+    """Parse with the real Chart.from_file (or, every few parses, Chart.from_filepath on a reused path).  Returns
+    (chart, logs) if capture_logs else chart."""
     cp = load_impl()
     from chartparse.chart import Chart
 
     if not capture_logs:
+        p = _reused_path(text)
+        if p is not None:
+            from pathlib import Path
+            return keep_alive(Chart.from_filepath(Path(p), want_tracks=want))
         return keep_alive(Chart.from_file(io.StringIO(text), want_tracks=want))
     h = LogCapture()
     lg = logging.getLogger("chartparse")
@@ -141,6 +237,8 @@ def want_pairs(pairs):
 def outcome(text: str, want=None):
     """Parse and classify: ('chart', chart) or ('raise', exception)."""
     try:
+        if _ENTRY["how"] is not None and want is None and text in _SECTIONS_OF:
+            return "chart", parse_sections(_SECTIONS_OF[text], _ENTRY["how"])
         return "chart", parse(text, want)
     except BaseException as e:  # noqa: BLE001 - the class is the observation
         if isinstance(e, (KeyboardInterrupt, SystemExit, MemoryError)):
@@ -174,3 +272,16 @@ def wide_chars(r, n_random=40):
             continue
         out.append(c)
     return [chr(c) for c in out]
+
+
+# Words that LOOK like something the format or the language knows (in every capitalisation, and with letters that only
+# case-fold to them): a verbatim word stays what was written.
+def keyword_like_words():
+    base = ["solo", "soloend", "lyric", "section", "phrase_start", "phrase_end", "bass", "rhythm", "true", "false", "none", "null", "nan", "inf",
+            "n", "s", "e", "b", "a", "ts", "song", "synctrack", "events", "expertsingle", "resolution", "name", "default", "idle", "play",
+            "enable_chart_dynamics", "disco_flip", "mix_0_drums0"]
+    out = []
+    for w in base:
+        out += [w, w.capitalize(), w.upper(), w.title(), w[0] + w[1:].upper(), "".join(c.upper() if k % 2 else c for k, c in enumerate(w))]
+    out += ["\u017folo", "\u017foloend", "\u017fection", "lyr\u0131c", "LYR\u0130C", "\u212a", "SOLOEND", "SoloEnd", "soloEnd", "\ufb01", "stra\u00dfe", "STRASSE"]
+    return sorted(set(out))
